@@ -28,7 +28,7 @@ def budget(tier):
     return {"runs": 120000, "wall": 1200, "chunk": 10}
 
 
-DIRS = ["gff-version 3", "sequence-region chr1 1 1000", "species x", "#", "date 2020", "feature-ontology so.obo", "x y  z ", "", "0", "note a\u2028b", "form\x0cfeed", "nel\x85here"]
+DIRS = ["gff-version 3", "sequence-region chr1 1 1000", "species x", "FASTA-source genome.fa", "FASTAfile x", "#", "date 2020", "feature-ontology so.obo", "x y  z ", "", "0", "note a\u2028b", "form\x0cfeed", "nel\x85here"]
 
 
 def gen(rng, tier):
